@@ -103,7 +103,7 @@ ALL = {"basic": m_basic, "if": m_if, "func": m_func, "names": m_unsorted_names, 
 
 def inputs_for(name, rnd):
     x = rnd.standard_normal((2, 3)).astype(np.float32)
-    if name in ("if", "if_forwarding"):
+    if name in ("if", "if_forwarding", "docstring_only", "unsorted_subgraph"):
         return [{"x": x, "cond": np.array(c)} for c in (True, False)]
     return [{"x": x}]
 
@@ -283,3 +283,30 @@ def m_if_forwarding():
 
 
 ALL["if_forwarding"] = m_if_forwarding
+
+
+def m_docstring_only():
+    """A node (and a node inside a branch) that carries only a doc_string - no metadata_props anywhere."""
+    then_g = helper.make_graph([helper.make_node("Neg", ["x"], ["t_out"], name="t_neg", doc_string="documented inner node")], "then_doc", [], [vi("t_out")])
+    else_g = helper.make_graph([helper.make_node("Abs", ["x"], ["e_out"], name="e_abs")], "else_doc", [], [vi("e_out")])
+    nodes = [helper.make_node("Relu", ["x"], ["h"], name="relu", doc_string="documented node"),
+             helper.make_node("If", ["c"], ["r"], name="if0", then_branch=then_g, else_branch=else_g),
+             helper.make_node("Add", ["h", "r"], ["y"], name="add")]
+    g = helper.make_graph(nodes, "docstring_only", [vi("x"), helper.make_tensor_value_info("c", TensorProto.BOOL, [])], [vi("y")])
+    return helper.make_model(g, opset_imports=[helper.make_opsetid("", 18)], ir_version=10)
+
+
+def m_unsorted_subgraph():
+    """The main graph is in order; only the nodes of a branch are out of order (not checker-valid: used by the pass-contract
+    checks, skipped by the semantic ones)."""
+    then_g = helper.make_graph([helper.make_node("Abs", ["t0"], ["t_out"], name="t_abs"), helper.make_node("Neg", ["x"], ["t0"], name="t_neg")],
+                               "then_unsorted", [], [vi("t_out")])
+    else_g = helper.make_graph([helper.make_node("Abs", ["x"], ["e_out"], name="e_abs")], "else_sorted", [], [vi("e_out")])
+    nodes = [helper.make_node("Relu", ["x"], ["h"], name="relu"),
+             helper.make_node("If", ["c"], ["r"], name="if0", then_branch=then_g, else_branch=else_g),
+             helper.make_node("Add", ["h", "r"], ["y"], name="add")]
+    g = helper.make_graph(nodes, "unsorted_subgraph", [vi("x"), helper.make_tensor_value_info("c", TensorProto.BOOL, [])], [vi("y")])
+    return helper.make_model(g, opset_imports=[helper.make_opsetid("", 18)], ir_version=10)
+
+
+ALL.update({"docstring_only": m_docstring_only, "unsorted_subgraph": m_unsorted_subgraph})
